@@ -348,3 +348,24 @@ pub fn build(l: &Layout) -> Built {
     out.extend_from_slice(&l.trailing);
     Built { bytes: out, offsets, cd_offset: cd_start, eocd_offset }
 }
+
+#[cfg(test)]
+mod f7_witness {
+    use super::*;
+    /// The two layouts of lean/ZipVerif/Props/C03Order.lean (`reversed`, `unsaturated`): their bytes are pasted
+    /// there and the kernel checks `Spec.Zip.buildG` against them (run with `--nocapture` to print them again).
+    #[test]
+    fn print_witnesses() {
+        let mut l = Layout::new(vec![Entry::stored(b"a", b"a"), Entry::stored(b"b", b"bb")]);
+        l.cd_order = Some(vec![1, 0]);
+        let h = |b: &[u8]| b.iter().map(|x| format!("{x}")).collect::<Vec<_>>().join(", ");
+        eprintln!("REVERSED [{}]", h(&build(&l).bytes));
+        l.zip64_eocd = true;
+        l.eocd_unsaturated = true;
+        l.end64_ext = vec![0x65, 0, 2, 0, 0, 0, 7, 7];
+        l.gap_before_end = vec![1, 2, 3];
+        eprintln!("UNSATURATED [{}]", h(&build(&l).bytes));
+        let a = zip::ZipArchive::new(std::io::Cursor::new(build(&l).bytes)).unwrap();
+        assert_eq!(a.len(), 2);
+    }
+}
